@@ -129,11 +129,14 @@ structure PrintsParseBack (N : Net Addr Prefix) : Prop where
   back : ∀ a, N.parseAddr (N.toString a) = some a
   emptyInvalid : N.parseAddr [] = none
 
-/-- the address the wrapper's policy function parses out of the connection's remote address
-    (as the code does it: the zone is NOT cut) -/
+/-- the peer address the wrapper's policy function tests against `allow` / `deny`: the host of the
+    connection's remote address, accepted with its zone, tested without it -/
 def ppPeerAddr (N : Net Addr Prefix) (peer : Bytes) : Option Addr :=
   match splitHostPort peer with
-  | some hp => N.parseAddr hp.1
+  | some hp =>
+    match N.parseAddr hp.1 with
+    | some _ => N.parseAddr (cutZone hp.1)
+    | none => none
   | none => none
 
 /-- a forwarding field that IS sent, with exactly one value -/
